@@ -368,6 +368,22 @@ func specialC13(args []string) int {
 			nViol++
 			exit = 1
 		} else {
+			// behaviour that depends on what happens to lie in memory may not survive minimisation: fall back to the
+			// trace as it was found (several attempts: each replay is 8 fresh processes x 2 executions)
+			tr.Violation = small.Violation
+			b, _ := json.MarshalIndent(tr, "", " ")
+			os.WriteFile(path, b, 0o644)
+			confirmed := false
+			for attempt := 0; attempt < 3 && !confirmed; attempt++ {
+				confirmed = replayC13(path, true) == 1
+			}
+			if confirmed {
+				fmt.Printf("violation: class=nondeterminism seed=%d (unminimised trace) %s\n", tr.Seed, small.Violation.Msg)
+				fmt.Printf("VIOLATION property=C13 replay=%s\n", path)
+				nViol++
+				exit = 1
+				continue
+			}
 			fmt.Fprintf(os.Stderr, "UNCONFIRMED: nondeterminism at run %d did not reproduce on replay\n", k)
 			if exit == 0 {
 				exit = 2
